@@ -359,6 +359,54 @@ fn main() {
         }
     }
     go("corruptions", muts);
+    // (b2) the byte form with one integer written in a non-canonical way (overlong forms, five
+    // bytes with padding bits set, the sign bit with all digits zero): the byte readers must
+    // return a value or an error
+    {
+        const ODD: [&[u8]; 10] = [b"\x80\x00", b"\xc0\x00", b"\x80\x80\x80\x80\x00", b"\xc0\x80\x80\x80\x10", b"\x80\x80\x80\x80\x10", b"\xc0\x80\x80\x80\xf0", b"\xff\xff\xff\xff\xff", b"\xff\xff\xff\xff\x1f", b"\xbf\xff\xff\xff\x7f", b"\xc0\x80\x80\x80\x70"];
+        let mut raw: Vec<(bool, Vec<u8>)> = Vec::new();
+        // (every base is tried as a snapshot and as a delta, as in the other families)
+        for (is_delta, base) in bases.iter().map(|v| (false, v)).chain(bases.iter().map(|v| (true, v))) {
+            for pos in 0..base.len().min(24) {
+                for odd in ODD {
+                    let mut b = ints_to_bytes(&base[..pos]);
+                    b.extend_from_slice(odd);
+                    b.extend_from_slice(&ints_to_bytes(&base[pos + 1..]));
+                    raw.push((is_delta, b));
+                }
+            }
+        }
+        let lc = raw
+            .par_iter()
+            .fold(LocalClasses::new, |mut lc, (is_delta, bytes)| {
+                lc.eval();
+                let r = vp_core::catch(|| {
+                    let mut w: Vec<Warning> = Vec::new();
+                    if *is_delta {
+                        let mut d = DIRTY_DELTA.with(|d| d.clone());
+                        d.read(&mut w, obj_size, &mut Unpacker::new(bytes)).is_ok()
+                    } else {
+                        let mut s = DIRTY_SNAP.with(|d| d.clone());
+                        let mut ib = Vec::new();
+                        let ok = s.read(&mut w, &mut ib, bytes).is_ok();
+                        if ok {
+                            let _ = s.items().count();
+                            let _ = snap_ints(&s);
+                        }
+                        ok
+                    }
+                });
+                match r {
+                    Ok(ok) => lc.class(&format!("non-canonical-int:{}:{}", if *is_delta { "delta" } else { "snapshot" }, if ok { "accepted" } else { "rejected" }), || json!({"bytes": vp_core::hex_short(bytes)})),
+                    Err(p) => {
+                        run.violation(&format!("c11:{}:{}", if *is_delta { "delta" } else { "snapshot" }, vp_core::panic_sig(&p)), &p, json!({"family": "byte form with a non-canonical integer", "bytes_hex": vp_core::hex(bytes)}));
+                    }
+                }
+                lc
+            })
+            .reduce(LocalClasses::new, |a, b| a.merge(b));
+        run.merge_classes(lc);
+    }
     FAMILY_CAP_A.store(400, std::sync::atomic::Ordering::Relaxed);
     // (c) hand-made hostile structures
     let ua = libtw2_snapshot::format::uuid_to_item_data(Uuid::from_bytes([0x11; 16]));
@@ -528,7 +576,7 @@ fn main() {
     run.merge_classes(lc);
     run.assume("allocation bound checked: peak additional live bytes <= 64 x input bytes + 64 KiB per parser call (counting global allocator, thread-local)");
     run.finish(
-        &format!("int sequences of length <= {} over 15 boundary values (as snapshot and as delta, int and byte form); every truncation, single (and neighbouring double) field corruption with 18 boundary values and +-1/+-4 of valid snapshots and deltas; hand-made hostile structures (duplicate keys, bad registry items, oversized counts, 1023/1024/1025 items, 64 KiB +- words, UUID registry chains to the top of the type range, registered types on both sides of 0x8000 mixed with ordinal items of different sizes in several wire orders); every accepted delta applied to every accepted snapshot of a pool; Delta::create between all pool pairs; accepted => limits, write/read equality, follow-up operations incl. recycle", maxlen),
+        &format!("int sequences of length <= {} over 15 boundary values (as snapshot and as delta, int and byte form); every truncation, single (and neighbouring double) field corruption with 18 boundary values and +-1/+-4 of valid snapshots and deltas; their byte forms with each of the first 24 integers in ten non-canonical encodings; hand-made hostile structures (duplicate keys, bad registry items, oversized counts, 1023/1024/1025 items, 64 KiB +- words, UUID registry chains to the top of the type range, registered types on both sides of 0x8000 mixed with ordinal items of different sizes in several wire orders); every accepted delta applied to every accepted snapshot of a pool; Delta::create between all pool pairs; accepted => limits, write/read equality, follow-up operations incl. recycle", maxlen),
         true,
     );
 }
